@@ -26,7 +26,9 @@ STORE_DIRS["rock-tiny"] = "rock {run}/rock 1 slot-size=4096 max-size=262144"    
 STORE_DIRS["ufs-tiny"] = "ufs {run}/ufs 1 2 2"
 
 SIZES = st.one_of(st.sampled_from([9000, 100, 4000, 4056, 4200, 8200, 12288, 20000, 40000, 0, 1]), st.integers(0, 9000), st.integers(0, 60000))
-PARTIALS = [-1, -1, 1, 39, 40, 41, 100, 512, 2048, 4095]
+PARTIALS = [-1, 39, -1, 1, 8, 40, 41, 71, 100, 512, 2048, 4095]
+PERMILLES = [((k * 379) % 1100) + 1 for k in range(1, 111)]       # 380, 759, 38, 417, ...
+STARTUP_WRITES = {"rock": 0, "rock-tiny": 0}                       # others: 3 (swap.state header and friends)
 
 # ---- thorough tier: finite set
 FIXED = [
@@ -64,9 +66,12 @@ def strategy(tp):
     })
     return st.fixed_dictionaries({
         "store": st.sampled_from(["rock", "ufs", "aufs", "diskd", "rock", "ufs", "rock-tiny", "ufs-tiny"]),
-        "ops": st.lists(op, min_size=3, max_size=12),
-        # crash point as permille of the estimated number of write-like calls of the workload (> 1000: beyond it)
-        "crash_permille": st.integers(1, 1100),
+        "ops": st.lists(op, min_size=4, max_size=12),
+        # crash point as permille of the estimated number of write-like calls of the workload (> 1000: beyond it); a fixed
+        # scrambled list, so that also the "simple" values Hypothesis starts with are spread over the workload
+        "crash_permille": st.sampled_from(PERMILLES),
+        # 1..3: crash at that write of the start-up phase instead (ufs-family stores create swap.state files there)
+        "startup_crash": st.sampled_from([0, 0, 0, 0, 0, 0, 0, 1, 2, 3]),
         "partial": st.sampled_from(PARTIALS),
     })
 
@@ -83,14 +88,25 @@ def teardown(env):
 
 
 def _estimate_writes(store, ops):
-    n = 0 if store.startswith("rock") else 3
+    """Rough number of write-like calls the workload itself causes (the start-up writes not counted): stores write,
+    cache hits do not, a PURGE of a cached object costs the ufs family one swap.state record and rock nothing."""
+    n = 0
+    cached = set()
+    rock = store.startswith("rock")
     for op in ops:
+        u = op["u"]
         if op["op"] == "purge":
-            n += 1
-        elif store.startswith("rock"):
-            n += (op["size"] + 400) // 4056 + 1
+            if u in cached and not rock:
+                n += 1
+            cached.discard(u)
+        elif op["op"] == "get" and u in cached:
+            continue
         else:
-            n += 3 + op["size"] // 4096 + (1 if op["op"] == "refresh" else 0)
+            if rock:
+                n += (op["size"] + 400) // 4056 + 1
+            else:
+                n += 3 + op["size"] // 4096 + (1 if u in cached else 0)
+            cached.add(u)
     return max(1, n)
 
 
@@ -118,7 +134,11 @@ def execute(env, sc):
             return r
     else:
         ops = sc["ops"]
-        crash_at = 1 + sc["crash_permille"] * _estimate_writes(store, ops) // 1000
+        startup = STARTUP_WRITES.get(store, 3)
+        if sc.get("startup_crash") and startup:
+            crash_at = min(sc["startup_crash"], startup)
+        else:
+            crash_at = startup + 1 + sc["crash_permille"] * _estimate_writes(store, ops) // 1000
     r.label("store:" + store)
     try:
         sq = env.new_squid(STORE_DIRS[store], started=False)
